@@ -22,7 +22,8 @@ from ..libmodel import lib_build, kinds_in, top_kind
 from ..veq import veq
 
 LEVEL = "fault_enumeration"
-RULE = ("core-fragment recipes from the typed grammar (no user callbacks, no third-party codecs) plus explicit data-dependent repeaters; (a) x random, "
+RULE = ("core-fragment recipes from the typed grammar (no user callbacks, no third-party codecs) plus explicit data-dependent repeaters plus every parameter "
+        "slot of every class fed from a u8/s8/VarInt field parsed just before it (n, n-3, n*n, n%5; every value of the field); (a) x random, "
         "boundary-biased, mutated-canonical inputs and zero/huge length fields, parsed through io.BytesIO and through the traced stream under a step "
         "budget linear in input length x recipe size; (b) every truncation offset of every canonical encoding of the strict sub-grammar; (c) every "
         "index k of every stream operation kind x 3 fault kinds, for parse and build. non-trivial = (a) an input the library rejected, (b) a "
@@ -157,6 +158,9 @@ EXPLICIT = [
     (["Struct", [["o", ["name", "Int8sb"]], ["p", ["Pointer", ["this", "o"], B]], ["s", ["Seek", ["this", "o"], 1]]]], {}),
     (["Bitwise", ["Struct", [["w", ["name", "Nibble"]], ["v", ["BitsInteger", ["this", "w"], False, False]]]]], {}),
     (["Bitwise", ["GreedyRange", ["BitsInteger", 3, False, False]]], {}),
+    (["Bitwise", ["Struct", [["n0", ["name", "Nibble"]], [None, ["Padding", 4]], ["xs", ["Array", ["this", "n0"], ["BitsInteger", 16, False, True]]], ["d", ["Bytewise", ["Bytes", ["this", "n0"]]]]]]], {}),
+    (["Struct", [["h", B], ["b", ["BitsSwapped", ["Struct", [["n", B], ["d", ["Bytes", ["this", "n"]]]]]]], ["t", B]]], {}),
+    (["Bitwise", ["Struct", [["w", ["BitsInteger", 3, False, False]], ["rest", ["name", "GreedyBytes"]]]]], {}),
     (["BitsSwapped", ["Struct", [["n", B], ["d", ["Bytes", ["this", "n"]]]]]], {}),
     (["Struct", [["n", B], ["u", ["Union", 0, [["a", ["Bytes", ["this", "_", "n"]]], ["b", ["name", "Int16ub"]]]]]]], {}),
     (["LazyStruct", [["n", B], ["d", ["Prefixed", B, ["name", "GreedyBytes"]]], ["v", ["name", "VarInt"]]]], {}),
@@ -360,6 +364,14 @@ def monitor_c(ctx, rng):
             v = None
         absorbing = bool(kinds_in(r) & ABSORBING) or "NullTerminated" in kinds_in(r) and "false, true, false" in repr(r).lower()
         lb = lib_build(d, v, kw) if v is not None else ("no",)
+        for _ in range(12 if i < len(extra) else 0):
+            if lb[0] == "ok":
+                break
+            try:                    # the explicit recipes always get a buildable value if one can be generated
+                v = genval(r, rng, M.top_scope(dict(kw)))
+                lb = lib_build(d, v, kw)
+            except Exception:
+                continue
         if lb[0] == "ok":
             data = lb[1]
         else:
